@@ -283,6 +283,46 @@ pub fn run_merge_groups(a: &Args) -> Result<(), String> {
     }
 }
 pub fn gen_merge_groups(r: &mut Rng) -> String { format!("n={} neg={} last={}", [3usize, 976, 977, 980][r.below(4) as usize], r.below(3), r.range(1, 6)) }
+/// C01/C13 (chromosome runs, `allow_out_of_order_chroms`): whatever order the chromosome runs come in, the write either
+/// refuses the input with an error value or returns a file that serves every value it was given (never a panic).
+/// args: runs=<chrom>:<s>-<e>;<chrom>:<s>-<e>;...  [multipass=1]  (one value per run, value = 1 + run index)
+pub fn run_runs(a: &Args) -> Result<(), String> {
+    let multipass = a.get("multipass").map(|s| s == "1").unwrap_or(false);
+    let runs: Vec<(String, u32, u32)> = a.get("runs").ok_or("runs")?.split(';').filter(|t| !t.is_empty()).map(|t| {
+        let (c, r) = t.split_once(':').unwrap(); let (s, e) = r.split_once('-').unwrap(); (c.to_string(), s.parse().unwrap(), e.parse().unwrap()) }).collect();
+    let tf = tempfile::NamedTempFile::new().map_err(|e| e.to_string())?;
+    let mut sizes = HashMap::new();
+    for r in &runs { sizes.insert(r.0.clone(), 1000u32); }
+    let mut out = BigWigWrite::create_file(tf.path(), sizes).map_err(|e| e.to_string())?;
+    if a.get("defaults").is_none() { out.options.items_per_slot = 4; out.options.block_size = 4; out.options.compress = false; out.options.inmemory = true; out.options.channel_size = 0; }
+    out.options.manual_zoom_sizes = Some(vec![10]);
+    out.options.input_sort_type = bigtools::InputSortType::START;
+    let runtime = tokio::runtime::Builder::new_current_thread().build().unwrap();
+    let v: Vec<(String, Value)> = runs.iter().enumerate().map(|(i, r)| (r.0.clone(), Value { start: r.1, end: r.2, value: 1.0 + i as f32 })).collect();
+    let res = if multipass {
+        out.write_multipass(|| Ok(BedParserStreamingIterator::wrap_infallible_iter(v.clone().into_iter(), true)), runtime)
+    } else {
+        out.write(BedParserStreamingIterator::wrap_infallible_iter(v.clone().into_iter(), true), runtime)
+    };
+    if a.get("verbose").is_some() { eprintln!("write result: {:?}", res.as_ref().map_err(|e| e.to_string())); }
+    if res.is_err() { return Ok(()); }   // refused with an error value: fine
+    let mut r = BigWigRead::open_file(tf.path()).map_err(|e| format!("accepted, but the file cannot be opened: {}", e))?;
+    for (c, _) in v.iter() {
+        let want: Vec<(u32, u32, f32)> = v.iter().filter(|x| &x.0 == c).map(|x| (x.1.start, x.1.end, x.1.value)).collect();
+        let got: Vec<(u32, u32, f32)> = r.get_interval(c, 0, 1000).map_err(|e| format!("accepted, but query on {} fails: {:?}", c, e))?
+            .map(|x| x.map(|x| (x.start, x.end, x.value))).collect::<Result<Vec<_>, _>>().map_err(|e| format!("accepted, but reading {} fails: {}", c, e))?;
+        let mut w = want.clone(); w.sort_by_key(|x| x.0);
+        if got != w { return Err(format!("input accepted (Ok) but {} reads back {:?}, given {:?}", c, got, want)); }
+    }
+    Ok(())
+}
+pub fn gen_runs(r: &mut Rng) -> String {
+    let names = ["chr1", "chr2", "chr3"];
+    let mut s = String::from("runs=");
+    let mut pos = [0u32; 3];
+    for _ in 0..r.range(2, 6) { let k = r.below(3) as usize; s.push_str(&format!("{}:{}-{};", names[k], pos[k], pos[k] + 10)); pos[k] += 20; }
+    format!("{} multipass={}{}", s, r.below(2), if r.below(2) == 0 { " defaults=1" } else { "" })
+}
 pub fn gen_merge_many(r: &mut Rng) -> String {
     let base: u32 = [0u32, 49_990, 99_990, 4_294_899_990, 4_294_917_000, 4_294_940_000, 4_294_949_990, 4_294_960_000, 4_294_967_200][r.below(9) as usize];
     let mut s = String::from("streams=");
